@@ -180,6 +180,11 @@ def run_tlc(module, cfg, workers=None, timeout=900, env=None, simulate=None, dep
         pass
     if m:
         r.generated, r.distinct = int(m.group(1)), int(m.group(2))
+    ms = re.search(r"The number of states generated: (\d+)", r.out)        # simulation mode
+    if ms and not m:
+        r.generated = int(ms.group(1))
+        mt = re.search(r"(\d+) traces generated", r.out)
+        r.distinct = int(mt.group(1)) if mt else 0                          # reported as the number of random behaviours
     m = re.search(r"The depth of the complete state graph search is (\d+)", r.out)
     if m:
         r.depth = int(m.group(1))
